@@ -1,4 +1,49 @@
+mod bounds;
+mod guard;
+mod isa;
+mod mem;
+mod prims;
+mod vm;
+
 fn main() {
-    eprintln!("usage: vh-simd <subcommand> [options]");
-    std::process::exit(2);
+    let cmd = std::env::args().nth(1).unwrap_or_default();
+    match cmd.as_str() {
+        "prims" => prims::main_prims(),
+        "bounds" => bounds::main_bounds(),
+        "bounds-child" => bounds::main_child(),
+        "repro" => repro(),
+        _ => {
+            eprintln!("usage: vh-simd <prims|bounds|bounds-child> [options]");
+            std::process::exit(2);
+        }
+    }
+}
+
+/// Minimal reproductions of the defects registered for C18 (public API only).
+fn repro() {
+    use rten_simd::isa::GenericIsa;
+    use rten_simd::ops::{BitOps, NarrowSaturate};
+    use rten_simd::{Isa, Simd, SimdOp};
+    use rten_vecmath::{MaxNum, MinNum};
+
+    // 1. GenericIsa::narrow_saturate indexes `hi` with the output lane index.
+    let r = std::panic::catch_unwind(|| {
+        let isa = GenericIsa::new();
+        let ops = isa.i32();
+        let y = ops.narrow_saturate(ops.splat(1), ops.splat(2));
+        y.to_array().as_ref().to_vec()
+    });
+    println!("GenericIsa i32.narrow_saturate(splat(1), splat(2)) -> {:?}", r.map_err(|_| "PANIC"));
+
+    // 2. MaxNum / MinNum lose a NaN when a later vector holds a number in the same lane.
+    for v in [4usize, 8, 16] {
+        let mut xs = vec![0.5f32; 2 * v];
+        xs[0] = f32::NAN;
+        let max = isa::eval_on(isa::IsaSel::parse(match v { 4 => "generic", 8 => "avx2", _ => "avx512" }), MaxNum::new(&xs));
+        let min = isa::eval_on(isa::IsaSel::parse(match v { 4 => "generic", 8 => "avx2", _ => "avx512" }), MinNum::new(&xs));
+        println!("v={v}: MaxNum([NaN, 0.5 x {}]) = {max}, MinNum = {min}   (documented: NaN)", 2 * v - 1);
+    }
+    let mut xs = vec![0.5f32; 64];
+    xs[0] = f32::NAN;
+    println!("dispatch: MaxNum = {}, MinNum = {}", MaxNum::new(&xs).dispatch(), MinNum::new(&xs).dispatch());
 }
